@@ -7,22 +7,24 @@ Import ListNotations.
 
 (* ---- real numbers: m_n, h and the unit factor are parameters (theorems hold for all positive values) *)
 Definition ROps (mn h sc : R) : COps :=
-  mkCOps R Rplus Rminus Rmult Rdiv 0%R 1%R Rleb Rltb Reqb mn h (fun x => (x * sc)%R).
+  mkCOps R Rplus Rminus Rmult Rdiv 0%R 1%R Rleb Rltb Reqb mn h (fun x => (x * sc)%R) true.
 
 (* ---- exact rationals *)
 Definition qltb (a b : Q) : bool := negb (Qle_bool b a).
 Definition QOps (mn h : Q) : COps :=
   mkCOps Q (fun a b => Qred (a + b)) (fun a b => Qred (a - b)) (fun a b => Qred (a * b))
          (fun a b => Qred (a / b)) 0%Q 1%Q Qle_bool qltb Qeq_bool mn h
-         (fun x => Qred (x * (1 # 10000000000))).
+         (fun x => Qred (x * (1 # 10000000000))) true.
 
 (* ---- binary64 (Coq primitive floats: IEEE-754 + - * / and comparisons, bit for bit).
    scipp multiplies by the double nearest to 1e-10 for the angstrom*kg/(J*s) -> s/m conversion
    (probed: 100000/100000 random wavelengths bit-identical). *)
 Definition f_1em10 : float := 0x1.b7cdfd9d7bdbbp-34%float.
-Definition FOps (mn h : float) : COps :=
+Definition FOpsV (fixed : bool) (mn h : float) : COps :=
   mkCOps float PrimFloat.add PrimFloat.sub PrimFloat.mul PrimFloat.div 0%float 1%float
-         PrimFloat.leb PrimFloat.ltb PrimFloat.eqb mn h (fun x => PrimFloat.mul x f_1em10).
+         PrimFloat.leb PrimFloat.ltb PrimFloat.eqb mn h (fun x => PrimFloat.mul x f_1em10) fixed.
+Definition FOps : float -> float -> COps := FOpsV true.      (* the text with C11_regular.patch *)
+Definition FOps0 : float -> float -> COps := FOpsV false.    (* the text before it *)
 
 (* exact rational value of a finite binary64 number (0 for nan/inf, which never occur in the runs;
    the correspondence checks finiteness separately with [ffinite]) *)
@@ -35,3 +37,44 @@ Definition QofF (x : float) : Q :=
   end.
 Definition ffinite (x : float) : bool :=
   match Prim2SF x with S754_finite _ _ _ | S754_zero _ => true | _ => false end.
+
+(* ---- dyadic numbers m * 2^e with results truncated to 200 significant bits: a fast stand-in for the
+   exact rationals in the correspondence runs (gcd-free; + - * exact up to the truncation, comparisons
+   exact).  The relative error per operation is below 2^-199, far below the 1.5e-11 tolerance of the
+   comparisons it feeds; never used in a proof. *)
+Definition D : Type := (Z * Z)%type.
+Definition DPREC : Z := 200.
+Definition dnorm (x : D) : D :=
+  let (m, e) := x in
+  let s := (Z.log2 (Z.abs m) - DPREC)%Z in
+  if (0 <? s)%Z then (Z.shiftr m s, (e + s)%Z) else x.
+Definition dalign (a b : D) : Z * Z * Z :=        (* both mantissas at the smaller exponent *)
+  let (m1, e1) := a in let (m2, e2) := b in
+  let e := Z.min e1 e2 in (Z.shiftl m1 (e1 - e), Z.shiftl m2 (e2 - e), e).
+Definition dadd (a b : D) : D :=
+  if (fst a =? 0)%Z then b else if (fst b =? 0)%Z then a
+  else let '(m1, m2, e) := dalign a b in dnorm ((m1 + m2)%Z, e).
+Definition dopp (a : D) : D := ((- fst a)%Z, snd a).
+Definition dsub (a b : D) : D := dadd a (dopp b).
+Definition dmul (a b : D) : D := dnorm ((fst a * fst b)%Z, (snd a + snd b)%Z).
+Definition ddiv (a b : D) : D :=
+  if (fst b =? 0)%Z then (0%Z, 0%Z) else if (fst a =? 0)%Z then (0%Z, 0%Z)
+  else let k := Z.max 0 (DPREC + 2 + Z.log2 (Z.abs (fst b)) - Z.log2 (Z.abs (fst a)))%Z in
+       dnorm ((Z.shiftl (fst a) k / fst b)%Z, (snd a - snd b - k)%Z).
+Definition dcmp (a b : D) : comparison :=
+  if (fst a =? 0)%Z then Z.compare 0 (fst b) else if (fst b =? 0)%Z then Z.compare (fst a) 0
+  else let '(m1, m2, _) := dalign a b in Z.compare m1 m2.
+Definition dleb (a b : D) : bool := match dcmp a b with Gt => false | _ => true end.
+Definition dltb (a b : D) : bool := match dcmp a b with Lt => true | _ => false end.
+Definition deqb (a b : D) : bool := match dcmp a b with Eq => true | _ => false end.
+Definition DofF (x : float) : D :=
+  match Prim2SF x with
+  | S754_finite s m e => ((if s then Zneg m else Zpos m), e)
+  | _ => (0%Z, 0%Z)
+  end.
+Definition DtoQ (x : D) : Q :=
+  let (m, e) := x in
+  if (0 <=? e)%Z then inject_Z (m * 2 ^ e) else Qmake m (Pos.shiftl 1 (Z.to_N (- e))).
+Definition DOps (mn h : D) : COps :=
+  mkCOps D dadd dsub dmul ddiv (0%Z, 0%Z) (1%Z, 0%Z) dleb dltb deqb mn h
+         (fun x => ddiv x (10000000000%Z, 0%Z)) true.
